@@ -311,6 +311,16 @@ pub fn run(args: &Args, r: &mut Report) {
             case.script.repeat_last_attempt = true;
             l.push_str("+norecovery");
         }
+        // embedders differ: one never asks for checks and drops every control handle, one has a task of its own
+        // that takes the shared storage and app-set locks now and then
+        if start_mode && rng.chance(1, 4) {
+            case.drop_handles_after = Some(rng.below(20));
+            l.push_str("+nohandles");
+        }
+        if rng.chance(1, 5) {
+            case.embedder_rate = 5;
+            l.push_str("+embedder");
+        }
         case.shape.push(l);
         case.sched = Sched::Random;
         case.nontrivial = true;
